@@ -16,7 +16,7 @@ for f in sorted(glob.glob("seeded/*/meta.json")):
         continue
     props = [m["property"]]
     # a few seeds are reported by a sibling property's rule
-    extra = {"C02-2": ["C03"], "C41-2": ["C03"], "C21-2": ["C20"], "C35-1": ["C20"]}.get(m["id"], [])
+    extra = {"C02-2": ["C03"], "C41-2": ["C03"], "C21-2": ["C20"], "C35-1": ["C20"], "C10-2": ["C01"]}.get(m["id"], [])
     rc, out = run(os.path.join(os.path.dirname(f), "patch.diff"), props + extra)
     if "cannot load" in out or rc not in (0, 1):
         status = "ERROR"
